@@ -669,36 +669,33 @@ theorem mrsAttrs_look (o : Opts) (m : MRS) (cs : List Xml) :
       ∧ (xEl "mrs" (mrsAttrs o m) cs).attr "surface" = (if o.lnk then m.surface else none)
       ∧ (xEl "mrs" (mrsAttrs o m) cs).attr "ident" = m.ident := by
   obtain ⟨pr, lk⟩ := o
-  cases lk <;> cases m.surface <;> cases m.ident <;>
+  obtain ⟨_, _, _, _, _, _, ml, ms, mi⟩ := m
+  cases lk <;> cases ms <;> cases mi <;>
     simp [mrsAttrs, Xml.attr, xEl, Xml.attrs, dLnk, parseInt_intStr]
 
 theorem find_label (at_ : List (String × Str)) (top : Option Str) (B E H I : List Xml)
-    (htop : ∀ t, top = some t → varSort t = ['h'])
     (hB : ∀ x ∈ B, x.tag = "var") (hE : ∀ x ∈ E, x.tag = "ep") (hH : ∀ x ∈ H, x.tag = "hcons")
     (hI : ∀ x ∈ I, x.tag = "icons") :
-    (match (xEl "mrs" at_ (topX top ++ B ++ E ++ H ++ I)).find "label" with
-      | none => some none
-      | some l => (dLabel l).map some) = some top := by
-  simp only [Xml.find, xEl, Xml.children, List.find?_append, find_none B _ _ hB (by decide),
-    find_none E _ _ hE (by decide), find_none H _ _ hH (by decide), find_none I _ _ hI (by decide),
-    Option.or_none]
+    (xEl "mrs" at_ (topX top ++ B ++ E ++ H ++ I)).find "label" = top.map xLabel := by
+  simp only [Xml.find, xEl, Xml.children, List.find?_append, find_none B "var" "label" hB (by decide),
+    find_none E "ep" "label" hE (by decide), find_none H "hcons" "label" hH (by decide),
+    find_none I "icons" "label" hI (by decide), Option.or_none]
   cases top with
   | none => simp [topX]
-  | some t => simp [topX, xLabel_tag, dLabel_xLabel t (htop t rfl)]
+  | some t => simp [topX, xLabel_tag]
 
 theorem find_var (at_ : List (String × Str)) (top ix : Option Str) (vp0 : Dict Props) (E H I : List Xml)
-    (hvp : PropsOK vp0) (hix : ∀ i, ix = some i → lower i = i)
     (hE : ∀ x ∈ E, x.tag = "ep") (hH : ∀ x ∈ H, x.tag = "hcons")
     (hI : ∀ x ∈ I, x.tag = "icons") :
-    (match (xEl "mrs" at_ (topX top ++ (ixPair vp0 ix).1 ++ E ++ H ++ I)).find "var" with
-      | none => some none
-      | some v => (dVar v).map some) = some (ix.map (fun i => (mentVar vp0 i).1)) := by
-  simp only [Xml.find, xEl, Xml.children, List.find?_append, find_none _ _ _ (topX_tags top) (by decide),
-    find_none E _ _ hE (by decide), find_none H _ _ hH (by decide), find_none I _ _ hI (by decide),
-    Option.or_none, Option.none_or]
+    (xEl "mrs" at_ (topX top ++ (ixPair vp0 ix).1 ++ E ++ H ++ I)).find "var"
+      = ix.map (fun i => (xVar vp0 i).1) := by
+  simp only [Xml.find, xEl, Xml.children, List.find?_append,
+    find_none (topX top) "label" "var" (topX_tags top) (by decide),
+    find_none E "ep" "var" hE (by decide), find_none H "hcons" "var" hH (by decide),
+    find_none I "icons" "var" hI (by decide), Option.or_none, Option.none_or]
   cases ix with
   | none => simp [ixPair]
-  | some i => simp [ixPair, xVar_tag, dVar_xVar vp0 i hvp (hix i rfl)]
+  | some i => simp [ixPair, xVar_tag]
 
 end Verif.C01.MrxL
 
@@ -749,17 +746,23 @@ theorem ofXml_toXml (o : Opts) (m : MRS) (h : ExprX m) : ofXml (toXml o m) = som
     rw [hEd] at a1; rw [hHd] at a2; rw [hId] at a3
     simp [xEl, Xml.iter, iterL_append, topX_iter "icons" e3, ixPair_iter "icons" e3, a1, a2, a3]
   obtain ⟨k1, k2, k3⟩ := mrsAttrs_look o m (topX m.top ++ (ixPair vp0 m.index).1 ++ E ++ H ++ I)
-  have fl := find_label (mrsAttrs o m) m.top (ixPair vp0 m.index).1 E H I h.top (ixPair_tags vp0 m.index) tE tH tI
-  have fv := find_var (mrsAttrs o m) m.top m.index vp0 E H I hvp0 h.index tE tH tI
-  unfold ofXml
-  rw [fl, fv, iterE, iterH, iterI, hE1, hH1, hI1, k1, k2, k3]
-  simp only [Option.bind_eq_bind, Option.bind_some, Option.pure_def]
-  rw [hE2, hE3, hH2, hH3, hI2, hI3, hH4, hE4, ixPair_snd]
-  have i1 : Option.map (fun x : Mention => x.1) (Option.map (fun i => (mentVar vp0 i).1) m.index) = m.index := by
-    cases m.index <;> simp [mentVar_fst_fst]
+  have fl := find_label (mrsAttrs o m) m.top (ixPair vp0 m.index).1 E H I (ixPair_tags vp0 m.index) tE tH tI
+  have fv := find_var (mrsAttrs o m) m.top m.index vp0 E H I tE tH tI
   have i2 : (Option.map (fun i => (mentVar vp0 i).1) m.index).toList = (mentVars vp0 m.index.toList).1 := by
     cases m.index <;> rfl
-  rw [i1, i2]
-  simp only [SimpleL.mentVars_append]
+  have hm : (mentVars vp0 (m.index.toList ++ List.flatMap epVarPos m.rels ++ List.map (fun x => x.lhs) m.hcons
+        ++ List.flatMap (fun c => [c.lhs, c.rhs]) m.icons)).1
+      = (Option.map (fun i => (mentVar vp0 i).1) m.index).toList ++ LE.flatMap (·.2) ++ LH.flatMap (·.2)
+          ++ LI.flatMap (·.2) := by
+    rw [hE3, hH3, hI3, hH4, hE4, ixPair_snd, i2]; simp only [SimpleL.mentVars_append]
+  have hl' : ∀ t, m.top = some t → dLabel (xLabel t) = some t := fun t ht => dLabel_xLabel t (h.top t ht)
+  have hv' : ∀ i, m.index = some i → dVar (xVar vp0 i).1 = some (mentVar vp0 i).1 :=
+    fun i hi => dVar_xVar vp0 i hvp0 (h.index i hi)
+  unfold ofXml
+  rw [fl, fv, iterE, iterH, iterI, hE1, hH1, hI1, k1, k2, k3, hm]
+  generalize m.top = top at hl' ⊢
+  generalize m.index = index at hv' ⊢
+  cases top <;> cases index <;>
+    simp [hl', hv', hE2, hH2, hI2, mentVar_fst_fst]
 
 end Verif.C01
